@@ -179,6 +179,9 @@ def _plan(prop, mod, tier, seed, only_clause, jobs):
                 tasks.append(("enum", prop, tier, seed, (c.name, s, nsh)))
         if c.strategy is not None:
             n = c.budget.get(tier, c.budget.get("quick", 100))
+            if tier == "quick":
+                # clause budgets were sized for ~5 s quick runs; the quick tier may take about half a minute
+                n = int(n * float(os.environ.get("VF_QUICK_SCALE", getattr(mod, "META", {}).get("quick_scale", 4))))
             if n <= 0:
                 continue
             nsh = max(1, min(c.max_shards, jobs, n // max(1, c.min_per_shard)))
